@@ -297,6 +297,9 @@ def run(ctx, model):
             break
     highlevel(ctx, cov)
     timezone_scenarios(ctx, cov)
+    # the re-upload thresholds changed after construction, through the caller's configuration object
+    import c08_cli
+    c08_cli.config_object_equivalence(ctx, cov, ctx.pick(16, 80), must_change=["reupload_max_uploads_ago", "reupload_max_bytes_ago"])
     return cov
 
 
@@ -352,6 +355,13 @@ def timezone_scenarios(ctx, cov):
 
 
 def replay(ctx, model, rec):
+    if rec.get("case", {}).get("kind") == "config-object":
+        import c08_cli
+        n0 = len(ctx.violations)
+        c08_cli.config_object_equivalence(ctx, common.Coverage("replay"), 40, must_change=["reupload_max_uploads_ago", "reupload_max_bytes_ago"])
+        mine = ctx.violations[n0:]
+        del ctx.violations[n0:]
+        return {"violates": bool(mine), "violations": [v["what"] for v in mine][:3]}
     if rec.get("case", {}).get("kind") == "timezone":
         n0 = len(ctx.violations)
         timezone_scenarios(ctx, common.Coverage("replay"))
